@@ -68,7 +68,9 @@ GEN = os.path.join(C.LEAN_DIR, "GPVerif", "Gen", "CacheTable.lean")
 KINDS = ["exact", "kiss", "sgpr", "svgp", "usvgp"]
 # settings cells = bit masks; bit i = setting i of CacheSM.settingNames, bit 8 = accuracy-degrading variant
 SETTING_BITS = ["fast_pred_var", "fast_pred_samples", "eager_kernels", "cg", "no_detach", "skip_var", "lazy_joint", "trace_mode"]
-FPV, FPS, EAGER, NOCHOL, KEEPGRAPH, SKIP, LAZYSLICE, TRACE, DEGRADED = (1 << i for i in range(9))
+FPV, FPS, EAGER, NOCHOL, KEEPGRAPH, SKIP, LAZYSLICE, TRACE, DEGRADED, NANMASK, NANFILL = (1 << i for i in range(11))
+NANBITS = NANMASK | NANFILL      # observation_nan_policy: neither = "ignore" (default), bit 9 = "mask", bit 10 = "fill"
+NAN_IDX = (2, 5)                 # training targets that are NaN in a history that uses a nan-policy cell
 LEGACY = {"P0": 0, "P1": FPV, "P2": EAGER, "P3": NOCHOL, "P4": KEEPGRAPH, "P5": SKIP, "P8": LAZYSLICE, "P9": TRACE,
           "Q1": FPV | NOCHOL | DEGRADED, "Q2": NOCHOL | DEGRADED}
 LEGACY_OF = {v: k for k, v in LEGACY.items()}
@@ -89,7 +91,13 @@ def cell_name(mask):
         return "degraded_root"
     if mask == Q2:
         return "degraded_cg"
-    return "+".join(n for i, n in enumerate(SETTING_BITS) if mask >> i & 1) or "default"
+    names = [n for i, n in enumerate(SETTING_BITS) if mask >> i & 1]
+    names += ["nan_fill"] if mask & NANFILL else (["nan_mask"] if mask & NANMASK else [])
+    return "+".join(names) or "default"
+
+
+def nan_policy(mask):
+    return "fill" if mask & NANFILL else ("mask" if mask & NANMASK else "ignore")
 
 
 OPKINDS = ["P", "R", "T", "E", "S", "D", "L", "F", "B"]
@@ -156,6 +164,8 @@ def cell_ctx(mask):
         st.enter_context(S.max_eager_kernel_size(0))
     if mask & TRACE:        # generic kernel path / dense assembly in the variational strategy
         st.enter_context(S.trace_mode(True))
+    if mask & NANBITS:
+        st.enter_context(S.observation_nan_policy(nan_policy(mask)))
     return st
 
 
@@ -281,6 +291,8 @@ def memo_name(key, val):
     """name of a `_memoize_cache` entry; the `(inside_root, None)` representation of a two-representation entry
     (built under fast_pred_samples) is reported under its own name, like the Lean model does"""
     name = key[0] if isinstance(key, tuple) else key
+    if isinstance(key, tuple) and len(key) > 1 and key[1] in (("mask",), ("fill",)):
+        return f"{name}[{key[1][0]}]"      # the memo key contains the nan policy: one entry per policy
     if isinstance(val, tuple) and len(val) == 2 and val[0] is not None and val[1] is None:
         return f"{name}[fast_pred_samples]"
     return name
@@ -290,9 +302,10 @@ class World:
     """One real model + the harness' own record of the data it was given.  `shared`: another World whose argument
     tensors (train inputs / targets, initial inducing points, fixed noise) this one is constructed from as well."""
 
-    def __init__(self, kind, seed, shared=None, fixed_noise=False):
+    def __init__(self, kind, seed, shared=None, fixed_noise=False, nan_targets=False):
         import torch
         self.kind = kind
+        self.nan_targets = nan_targets
         self.n = 8
         self.xt = torch.tensor([[0.13], [0.47], [0.81]])
         if shared is None:
@@ -303,6 +316,7 @@ class World:
             self.noise0 = (0.05 + 0.1 * torch.rand(self.n, generator=self.g)) if fixed_noise else None
         else:
             self.g = shared.g
+            self.nan_targets = shared.nan_targets
             self.x, self.y, self.Z0, self.noise0 = shared.x, shared.y, shared.Z0, shared.noise0
         self.m = build(kind, self.x, self.y, Z=self.Z0, noise=self.noise0)
         self.m.load_state_dict(new_params(self.m.state_dict(), self.g))
@@ -316,6 +330,8 @@ class World:
         if targets:
             self.y = torch.sin(5 * self.x.squeeze(-1) + float(torch.rand((), generator=self.g)) * 3) \
                 + 0.2 * torch.randn(self.n, generator=self.g)
+            if self.nan_targets:
+                self.y[list(NAN_IDX)] = float("nan")
 
     # -------- observables
     def keys(self):
@@ -444,7 +460,9 @@ class World:
                     mll = gpytorch.mlls.ExactMarginalLogLikelihood(m.likelihood, m)
                 else:
                     mll = gpytorch.mlls.VariationalELBO(m.likelihood, m, num_data=self.n)
-                loss = -mll(m(self.x), self.y)
+                # (with missing targets the objective is the documented one: under the "mask" policy)
+                with gpytorch.settings.observation_nan_policy("mask") if self.nan_targets else contextlib.nullcontext():
+                    loss = -mll(m(self.x), self.y)
                 loss.backward()
                 torch.nn.utils.clip_grad_norm_(m.parameters(), 1.0)
                 opt.step()
@@ -541,9 +559,17 @@ class World:
 
 
 def reldiff(a, b):
+    """max |a - b| relative to max(1, |b|); NaN entries (missing targets under the "ignore" policy) must coincide"""
     import torch
     if a.shape != b.shape:
         return float("inf")
+    na, nb = torch.isnan(a), torch.isnan(b)
+    if bool(na.any()) or bool(nb.any()):
+        if not torch.equal(na, nb):
+            return float("inf")
+        if bool(na.all()):
+            return 0.0
+        a, b = a[~na], b[~nb]
     d = (a - b).abs()
     if not bool(torch.isfinite(d).all()):
         return float("inf")
@@ -559,14 +585,16 @@ def reads_of(ps, cell, prior):
     """memo names an exact-path call reads (mirror of CacheSM.accessModel; variational memos are never degraded)"""
     if prior or ps in ("None", "-"):
         return set()
+    pol = nan_policy(cell)
+    mean = "mean_cache" if pol == "ignore" else f"mean_cache[{pol}]"
     if ps == "SGPRPredictionStrategy":
-        return {"mean_cache", "covar_cache"}
+        return {mean, "covar_cache"}
     fpv, fps, skip = bool(cell & FPV), bool(cell & FPS), bool(cell & SKIP)
     if ps == "InterpolatedPredictionStrategy":
         if (fpv or fps) and not skip:
             return {"mean_cache", "covar_cache[fast_pred_samples]" if fps else "covar_cache"}
         return {"mean_cache"}
-    return {"mean_cache", "covar_cache"} if fpv and not skip else {"mean_cache"}
+    return {mean, "covar_cache"} if fpv and not skip and pol == "ignore" else {mean}
 
 
 class Track:
@@ -591,11 +619,13 @@ def run_history(kind, tokens, seed, compare_all=False):
     noise tensor); every record carries the object it belongs to."""
     two = any(t[0] == "@" for t in tokens)
     fixed = two and kind == "exact" and bool(seed & 2)
+    # a history that uses a nan-policy cell is run on a model whose training targets contain NaN
+    nan = kind in ("exact", "kiss", "sgpr") and any(t[0] in "PC" and cell_mask(t) & NANBITS for t in tokens)
     if two and seed & 1:      # which of the two is constructed first
-        wa = World(kind, seed, fixed_noise=fixed)
+        wa = World(kind, seed, fixed_noise=fixed, nan_targets=nan)
         wb = World(kind, seed, shared=wa)
     else:
-        wb = World(kind, seed, fixed_noise=fixed)
+        wb = World(kind, seed, fixed_noise=fixed, nan_targets=nan)
         wa = World(kind, seed, shared=wb) if two else None
     worlds, tracks = {"A": wa, "B": wb}, {"A": Track(), "B": Track()}
     cur = "B"
@@ -753,16 +783,47 @@ def with_cells(kinds_seq, rng, counter):
 ALL_PREDICTS = ["P0", "P1", "Q1", "P2", "P3", "Q2", "P4", "P5", "P8", "P9", "C2", "C3"]
 
 
-def pair_histories(bases):
+def neighbours(cell, nan=False):
+    """cells that differ from `cell` in exactly one prediction-relevant setting (`nan`: incl. the three-valued
+    observation_nan_policy)"""
+    out = [cell ^ (1 << i) for i in range(len(SETTING_BITS))]
+    if nan:
+        out += [(cell & ~NANBITS) | p for p in (0, NANMASK, NANFILL) if p != cell & NANBITS]
+    return out
+
+
+def pair_histories(bases, nan=False):
     """`eval; predict[a]; predict[b]` for every base cell b0 and every setting: {a, b} = {b0, b0 with that setting
-    toggled}, both orders — two predictions on one object that differ in exactly one prediction-relevant setting"""
+    changed}, both orders — two predictions on one object that differ in exactly one prediction-relevant setting.
+    `nan` (exact kinds): the nan policy is a ninth setting (ignore <-> mask <-> fill), the model then has NaN training
+    targets; max_cholesky_size(0) is not combined with it (CG on NaN right-hand sides raises inside linear_operator)."""
     seen, out = set(), []
     for b0 in bases:
-        for i in range(len(SETTING_BITS)):
-            for c1, c2 in ((b0, b0 ^ (1 << i)), (b0 ^ (1 << i), b0)):
+        for c in neighbours(b0, nan):
+            for c1, c2 in ((b0, c), (c, b0)):
+                if (c1 | c2) & NANBITS and (c1 | c2) & NOCHOL:
+                    continue
                 if (c1, c2) not in seen:
                     seen.add((c1, c2))
                     out.append(["E", cell_token(c1), cell_token(c2)])
+    return out
+
+
+# a parameter / data change through a documented invalidation point
+INVALIDATIONS = [["T", "S", "E"], ["T", "S", "S", "E"], ["L"], ["L1"], ["L2"], ["D"], ["D1"], ["D2"], ["T", "E"], ["B"]]
+
+
+def invalidation_histories(exact):
+    """`eval; predict[c]; <invalidation>; predict[c]`: the SAME cell before and after every invalidation op, for the
+    default cell and every single-setting cell (exact kinds: and the two non-default nan policies) — e.g. mean-only
+    predictions (skip_posterior_variances) of a variational model around an optimiser step"""
+    cells = [0] + [1 << i for i in range(len(SETTING_BITS))] + ([NANMASK, NANFILL] if exact else [])
+    out = []
+    for c in cells:
+        for inv in INVALIDATIONS:
+            if not exact and inv[0] == "D":
+                continue
+            out.append(["E", cell_token(c)] + inv + [cell_token(c)])
     return out
 
 
@@ -1023,6 +1084,10 @@ def check_job(ctx, kind, tokens, seed, recs, stats):
         ctx.count("two_object_histories")
     elif len(tokens) == 3 and tokens[0] == "E" and all(t[0] in "PC" for t in tokens[1:]):
         ctx.count("settings_pair_histories")
+        if any(cell_mask(t) & NANBITS for t in tokens[1:]):
+            ctx.count("nan_policy_pair_histories")
+    elif len(tokens) >= 4 and tokens[0] == "E" and tokens[1][0] in "PC" and tokens[1] == tokens[-1] and all(t[0] not in "PCQ" for t in tokens[2:-1]):
+        ctx.count("same_cell_around_invalidation_histories")
     for n, r in enumerate(recs):
         if r["status"] == "switch":
             continue
@@ -1110,14 +1175,14 @@ def collect_exhaustive(ctx, p, depth_ops, depth_full):
         return
     total = 0
     for n, l in enumerate(lines):
-        k, what = KINDS[n // 2], (f"9 op kinds, length <= {depth_ops}" if n % 2 == 0 else f"24 symbols, length <= {depth_full}")
+        k, what = KINDS[n // 2], (f"9 op kinds, length <= {depth_ops}" if n % 2 == 0 else f"26 symbols, length <= {depth_full}")
         f = dict(x.split("=", 1) for x in l.split(";"))
         total += int(f["nodes"])
         ctx.count("lean_model_states_checked", int(f["nodes"]))
         ctx.count("lean_model_calls_checked", int(f["answers"]))
         if int(f["bad"]) > 0:
             ctx.broke("model", f"lean-model-invariant:{k}", f"{what}: {f['bad']} bad states/answers; first: {f['first']}")
-    ctx.notes["lean_model_exhaustive"] = {"depth_9_ops": depth_ops, "depth_24_symbols": depth_full, "states": total}
+    ctx.notes["lean_model_exhaustive"] = {"depth_9_ops": depth_ops, "depth_26_symbols": depth_full, "states": total}
 
 
 def correspondence(ctx):
@@ -1134,10 +1199,17 @@ def correspondence(ctx):
         for h in hists:
             jobs.append((kind, h, rng.getrandbits(20)))
     # two predictions on one object that differ in exactly one prediction-relevant setting, both orders
-    pairs = pair_histories([0] + [1 << i for i in range(len(SETTING_BITS))] if quick else bases_upto(3))
-    ctx.notes["settings_pairs_per_kind"] = len(pairs)
+    singles = [0] + [1 << i for i in range(len(SETTING_BITS))]
+    pairs = pair_histories(singles if quick else bases_upto(3))
+    # exact kinds: observation_nan_policy is a ninth setting (NaN training targets): ignore <-> mask <-> fill, both orders
+    nan_pairs = [h for h in pair_histories((singles if quick else bases_upto(2)) + [NANMASK, NANFILL], nan=True) if h not in pairs]
+    ctx.notes["settings_pairs_per_kind"] = {"all kinds": len(pairs), "exact kinds, nan policy": len(nan_pairs)}
     for kind in KINDS:
-        for h in pairs:
+        for h in pairs + (nan_pairs if kind in ("exact", "kiss", "sgpr") else []):
+            jobs.append((kind, h, rng.getrandbits(20)))
+    # the same cell before and after every invalidation op
+    for kind in KINDS:
+        for h in invalidation_histories(kind in ("exact", "kiss", "sgpr")):
             jobs.append((kind, h, rng.getrandbits(20)))
     # a sibling object constructed from the same argument tensors goes through ops; the observed object must not notice
     for kind in KINDS:
@@ -1191,7 +1263,8 @@ def search(ctx, broken):
                     jobs.append((kind, toks + ["P0", "P1", "P0"], rng.getrandbits(20)))
     # two predictions that differ in one setting (bases of <= 2 settings); sibling objects built from the same tensors
     for kind in KINDS:
-        for h in pair_histories(bases_upto(2)):
+        ex = kind in ("exact", "kiss", "sgpr")
+        for h in pair_histories(bases_upto(2) + ([NANMASK, NANFILL] if ex else []), nan=ex) + invalidation_histories(ex):
             jobs.append((kind, h, rng.getrandbits(20)))
         for h in two_object_histories(rng):
             jobs.append((kind, h, rng.getrandbits(20)))
